@@ -5,7 +5,6 @@ Import ListNotations.
 Local Close Scope Q_scope.
 Local Open Scope list_scope.
 
-Definition name_ok (v : string) : bool := negb (is_op v || is_sign v).
 
 Lemma read_terms_S f sign ts acc const :
   read_terms (S f) sign ts acc const =
